@@ -18,9 +18,9 @@ from vlib import bgrid
 PROPERTY_ID = "C13"
 RULE = ("random Hermitian models (1-3 WFs; Ham,AA,BB,CC,FF,GG,OO (+spin matrices)), spinless or double_spin() "
         "(exact two-fold degeneracy), grid <= 6^3 (<= 64 k-points) in a drawn factorisation, uniform Fermi grid "
-        "(1..12 points, spacing 0.01..0.5, placed below / inside / above / spanning the band range), formula in "
+        "(1..12 points, spacing 0.01..0.5, placed below / inside / above / spanning the band range, or starting inside a merged group), formula in "
         "{Identity, Omega, Spin, InvMass, DerOmega, VelVel, VelOmega, Morb_Hpm (non-additive)}, derivative order "
-        "0..3, degen_thresh in {-1, 1e-4, 1e-2}, band selections, k-resolved variants; non-trivial = at least one "
+        "0..3, degen_thresh in {-1, 1e-4, 1e-2, 0.1, 0.3} (the large ones merge bands into groups with a real spread), band selections, k-resolved variants; non-trivial = at least one "
         "band group changes occupation inside the (extended) Fermi grid, at least one degenerate group (double_spin "
         "pair or near-degenerate bands merged by the threshold) exists and the result is non-zero (sub cumdos: the "
         "cumulative DOS steps inside the grid); distinct = distinct generated case")
@@ -61,7 +61,7 @@ def get_formula(name):
 egrid_st = st.fixed_dictionaries(dict(
     n=st.integers(1, 12),
     de=st.one_of(st.sampled_from([0.01, 0.05, 0.1, 0.5]), fl(0.01, 0.5)),
-    mode=st.sampled_from(["inside", "inside", "inside", "span", "below", "above"]),
+    mode=st.sampled_from(["inside", "inside", "inside", "split", "split", "span", "below", "above"]),
     u=fl(0.0, 1.0),
 ))
 
@@ -70,7 +70,7 @@ egrid_st = st.fixed_dictionaries(dict(
 def base_st(draw):
     N = draw(bgrid.grid_total_st(nmax=6, maxpoints=64))
     spin = draw(st.sampled_from(["plain", "double", "double"]))
-    thr = draw(st.sampled_from([1e-4, 1e-2] if spin == "double" else [-1, 1e-4, 1e-2, 1e-2]))
+    thr = draw(st.sampled_from([1e-4, 1e-2, 0.1, 0.3] if spin == "double" else [-1, 1e-4, 1e-2, 0.1, 0.3]))
     model = draw(bgrid.model_st(max_wann=3, max_npairs=4, rmax=2))
     if not model["R"]:
         model["R"] = [[1, 0, 0], [0, 1, 1]]     # dispersive bands (an on-site-only model has flat bands)
@@ -101,7 +101,7 @@ def surf_case_st(draw):
 @st.composite
 def cumdos_case_st(draw):
     c = draw(base_st())
-    c["egrid"]["mode"] = draw(st.sampled_from(["far", "far", "span", "inside"]))
+    c["egrid"]["mode"] = draw(st.sampled_from(["far", "far", "span", "inside", "split"]))
     return c
 
 
@@ -138,6 +138,19 @@ class Ref:
         lo, hi = float(self.E.min()), float(self.E.max())
         width = de * (n - 1)
         mode = eg["mode"]
+        if mode == "split":
+            # first Fermi level inside a merged (not exactly degenerate) group: the group straddles the grid edge
+            cands = []
+            for E, g in zip(self.E, self.groups):
+                for a, b in g:
+                    d = np.diff(E[a:b])
+                    if b - a > 1 and d.max() > 1e-4:
+                        j = a + int(np.argmax(d))
+                        cands.append(0.5 * (E[j] + E[j + 1]))
+            if cands:
+                E0 = cands[min(len(cands) - 1, int(u * len(cands)))]
+            else:
+                mode = "inside"
         if mode == "inside":
             E0 = lo + u * max(hi - lo, 1e-3) - 0.5 * width * u
         elif mode == "below":
